@@ -1,5 +1,115 @@
-//! Proofs for the private helpers of src/arbitrary.rs (needs --features arbitrary).
+//! Proofs for the private helpers of src/arbitrary.rs (needs `--features arbitrary`).
+//!
+//! C19: generation from ANY byte string (bounded length) never panics, text fields are
+//! well-formed UTF-8 (the `from_utf8_unchecked` site), bounded fields are within capacity (the
+//! `try_into().unwrap()` / `from_slice(..).unwrap()` / `push(..).unwrap()` sites), the
+//! pointer cast in `arbitrary_byte_array` yields N readable bytes.
 #![allow(dead_code, unused_imports)]
+use super::*;
+
+const IN: usize = 16;
+
+fn any_input(buf: &[u8; IN]) -> &[u8] {
+    let n: usize = kani::any();
+    kani::assume(n <= IN);
+    &buf[..n]
+}
+
+fn str_case<const N: usize>() {
+    let buf: [u8; IN] = kani::any();
+    let mut u = Unstructured::new(any_input(&buf));
+    match arbitrary_str::<N>(&mut u) {
+        Ok(s) => {
+            assert!(s.len() <= N, "C19: text field beyond its capacity");
+            assert!(core::str::from_utf8(s.as_bytes()).is_ok(), "C19: text field is not well-formed UTF-8");
+            kani::cover!(s.len() == N);
+            kani::cover!(s.len() > 0 && s.as_bytes()[0] >= 0x80);
+        }
+        Err(e) => assert!(matches!(e, Error::NotEnoughData), "C19: unexpected generator error"),
+    }
+}
+
+#[kani::proof]
+#[kani::unwind(18)]
+pub fn c19_k_arbitrary_str_4() {
+    str_case::<4>();
+}
+
+#[kani::proof]
+#[kani::unwind(18)]
+pub fn c19_k_arbitrary_str_64() {
+    str_case::<64>();
+}
+
+fn bytes_case<const N: usize>() {
+    let buf: [u8; IN] = kani::any();
+    let mut u = Unstructured::new(any_input(&buf));
+    match arbitrary_bytes::<N>(&mut u) {
+        Ok(b) => assert!(b.len() <= N, "C19: byte field beyond its capacity"),
+        Err(e) => assert!(matches!(e, Error::NotEnoughData), "C19: unexpected generator error"),
+    }
+}
+
+#[kani::proof]
+#[kani::unwind(18)]
+pub fn c19_k_arbitrary_bytes() {
+    bytes_case::<4>();
+    bytes_case::<32>();
+}
+
+#[kani::proof]
+#[kani::unwind(18)]
+pub fn c19_k_arbitrary_byte_array() {
+    let buf: [u8; IN] = kani::any();
+    let input = any_input(&buf);
+    let mut u = Unstructured::new(input);
+    match arbitrary_byte_array::<8>(&mut u) {
+        Ok(a) => {
+            // the reference produced by the pointer cast points at 8 readable bytes of the input
+            let k: usize = kani::any();
+            kani::assume(k < 8);
+            assert!(a[k] == input[k], "C19: byte array does not alias the consumed input");
+        }
+        Err(e) => {
+            assert!(matches!(e, Error::NotEnoughData));
+            assert!(input.len() < 8, "C19: enough data but generation failed");
+        }
+    }
+}
+
+#[kani::proof]
+#[kani::unwind(18)]
+pub fn c19_k_arbitrary_vec() {
+    let buf: [u8; IN] = kani::any();
+    let mut u = Unstructured::new(any_input(&buf));
+    // at most N pushes: the `unwrap` on push never fires
+    let r: Result<Vec<u8, 3>> = arbitrary_vec::<u8, 3>(&mut u);
+    if let Ok(v) = r {
+        assert!(v.len() <= 3, "C19: list beyond its capacity");
+    }
+}
+
+/// CTAP1 request generator: never panics; a generated request is internally valid.
+#[kani::proof]
+#[kani::unwind(70)]
+pub fn c19_k_ctap1_request() {
+    let buf: [u8; 68] = kani::any();
+    let n: usize = kani::any();
+    kani::assume(n <= 68);
+    let mut u = Unstructured::new(&buf[..n]);
+    match <ctap1::Request<'_> as Arbitrary>::arbitrary(&mut u) {
+        Ok(ctap1::Request::Register(r)) => {
+            assert!(r.challenge.len() == 32 && r.app_id.len() == 32);
+        }
+        Ok(ctap1::Request::Authenticate(a)) => {
+            assert!(a.challenge.len() == 32 && a.app_id.len() == 32);
+            let c = a.control_byte as u8;
+            assert!(c == 3 || c == 7 || c == 8, "C19: invalid control byte generated");
+        }
+        Ok(ctap1::Request::Version) => {}
+        Err(_) => {}
+    }
+}
 
 #[path = "/verif/.cache/playback/arbitrary.rs"]
 mod playback;
